@@ -613,7 +613,7 @@ type TreeGen struct {
 func DefaultTreeGen(r *Rng) *TreeGen {
 	return &TreeGen{R: r, MaxDepth: 3, MaxWidth: 4,
 		Kinds: []string{"AND", "OR", "NOT", "LIST", "BASIC"}, Opts: []int{1, 2, 4, 8},
-		Syms: []string{"", "", "&", "||"}, Delims: []string{"", ",", " ", ";;"},
+		Syms: []string{"", "", "&", "||", "xor", "Nand"}, Delims: []string{"", ",", " ", ";;"},
 		EncPairs: [][]string{{"\""}, {"[", "]"}, {"<", ">"}, {"'"}},
 		Leaves:   []string{"str", "str", "int", "bool", "float"},
 		Strings:  []string{"a", "bc", "x y", "", "é", " pad ", "a\tb", "日本", "k", "cn", "uid"},
